@@ -85,8 +85,12 @@ func mathCosh(L *LState) int {
 	return 1
 }
 
+// radiansPerDegree is lmathlib.c's RADIANS_PER_DEGREE; multiplying by 180 (or pi) first, as
+// the code used to, overflows for large arguments whose result is finite.
+const radiansPerDegree = math.Pi / 180.0
+
 func mathDeg(L *LState) int {
-	L.Push(LNumber(float64(L.CheckNumber(1)) * 180 / math.Pi))
+	L.Push(LNumber(float64(L.CheckNumber(1)) / radiansPerDegree))
 	return 1
 }
 
@@ -187,7 +191,7 @@ func mathPow(L *LState) int {
 }
 
 func mathRad(L *LState) int {
-	L.Push(LNumber(float64(L.CheckNumber(1)) * math.Pi / 180))
+	L.Push(LNumber(float64(L.CheckNumber(1)) * radiansPerDegree))
 	return 1
 }
 
